@@ -1,5 +1,128 @@
-import D2V.Model.Watch
-/-! C45 — placeholder, theorems follow -/
+import D2V.Proofs.Watch44
+/-!
+  C45 — Watch server shutdown waits for every client and admits none afterwards.
+
+  All statements are about every run of `D2V.Watch.step` from `init`: any number of clients, any interleaving of
+  connections, handler steps, broadcasts and close() calls.
+-/
 namespace D2V.Watch
-theorem C45_init_quiescent_false : quiescent init = false := by decide
+theorem InvWG_run (s s' : State) (steps : List Step) (inv : InvWG s) (hr : run s steps = some s') : InvWG s' := by
+  induction steps generalizing s with
+  | nil => simp only [run, Option.some.injEq] at hr; subst hr; exact inv
+  | cons st r ih =>
+    simp only [run] at hr
+    split at hr
+    · rename_i s1 h1; exact ih s1 (InvWG_step s s1 st inv h1) hr
+    · simp at hr
+
+/-- brute-force frame lemma: `closing` is only ever set -/
+theorem step_closing (s s' : State) (st : Step) (hs : step s st = some s') :
+    s'.closing = (s.closing || decide (st = .closeBegin)) := by
+  cases st <;> simp only [step, cstep] at hs <;> (repeat' (split at hs)) <;>
+    (first
+      | (simp at hs; done)
+      | (simp only [Option.some.injEq] at hs; subst hs; simp))
+
+theorem closing_stable (s s' : State) (st : Step) (hs : step s st = some s') (hc : s.closing = true) :
+    s'.closing = true := by
+  rw [step_closing s s' st hs, hc]; rfl
+
+/-- `admission_only_before_closing`: once `closing` is set no run contains another admission -/
+theorem admission_only_before_closing (s s' : State) (steps : List Step) (hc : s.closing = true)
+    (hr : run s steps = some s') : Step.admitC ∉ steps := by
+  induction steps generalizing s with
+  | nil => simp
+  | cons st r ih =>
+    simp only [run] at hr
+    split at hr
+    · rename_i s1 h1
+      intro hm
+      simp only [List.mem_cons] at hm
+      rcases hm with hm | hm
+      · subst hm
+        simp [step, hc] at h1
+      · exact ih s1 (closing_stable s s1 st h1 hc) hr hm
+    · simp at hr
+
+/-- in trace form: in every run of the server, nothing is admitted after close() has begun -/
+theorem no_admission_after_close_begin (pre post : List Step) (s' : State)
+    (hr : run init (pre ++ Step.closeBegin :: post) = some s') : Step.admitC ∉ post := by
+  have split : ∀ (s : State) (a b : List Step), run s (a ++ b) = (run s a).bind (fun t => run t b) := by
+    intro s a
+    induction a generalizing s with
+    | nil => intro b; simp [run]
+    | cons x a ih =>
+      intro b
+      simp only [List.cons_append, run]
+      cases step s x with
+      | none => simp
+      | some t => simp [ih]
+  rw [split] at hr
+  cases h1 : run init pre with
+  | none => simp [h1] at hr
+  | some s1 =>
+    simp only [h1, Option.bind_some, run] at hr
+    split at hr
+    · rename_i s2 h2
+      have hc : s2.closing = true := by rw [step_closing s1 s2 _ h2]; simp
+      exact admission_only_before_closing s2 s' post hc hr
+    · simp at hr
+
+theorem wg_counts_handlers (steps : List Step) (s : State) (hr : run init steps = some s) :
+    s.wg = activeCount s.clients := (InvWG_run init s steps InvWG_init hr).wgEq
+
+/-- `no_add_after_wait`: while close() is in (or past) `wsclientsWG.Wait()` no `wsclientsWG.Add` can happen — the
+    WaitGroup misuse ("Add called concurrently with Wait") is unreachable -/
+theorem no_add_after_wait (steps : List Step) (s : State) (hr : run init steps = some s)
+    (hw : s.close = .waiting ∨ s.close = .returned) : step s .admitC = none := by
+  have inv := InvWG_run init s steps InvWG_init hr
+  have hc : s.closing = true := inv.closeClosing (by rcases hw with h | h <;> rw [h] <;> simp)
+  simp [step, hc]
+
+/-- **C45.** when close() has returned, no client handler is still running -/
+theorem C45_close_returns_after_all (steps : List Step) (s : State) (hr : run init steps = some s)
+    (hret : s.close = .returned) : ∀ (i : Nat) (c : Client), s.clients[i]? = some c → c.pc.active = false := by
+  have inv := InvWG_run init s steps InvWG_init hr
+  have h0 := inv.retZero hret
+  rw [inv.wgEq] at h0
+  exact activeCount_zero s.clients h0
+
+
+/-- liveness half ("no leaked client handler"): once the watcher's context is cancelled, a state in which none of the
+    program's own steps is enabled has no handler left; together with `internal_terminates` (Props/C44) such a state
+    is reached after at most `mu s` steps -/
+theorem C45_quiescent_no_handlers (steps : List Step) (s : State) (hr : run init steps = some s)
+    (hq : quiescent s = true) (hcan : s.cancelled = true) :
+    ∀ (i : Nat) (c : Client), s.clients[i]? = some c → c.pc.active = false := by
+  have hf := InvFresh_run init s steps InvVer_init InvFresh_init hr
+  obtain ⟨_, _, hcomp, _⟩ := quiescent_global s hf hq
+  have q := quiescent_spec s hq
+  intro i c hc
+  have hi : i < s.clients.length := (List.getElem?_eq_some_iff.mp hc).1
+  by_cases hm : c.pc.inMap = true
+  · have := (quiescent_client s hcomp hq i c hc hm).2.2.2
+    rw [hcan] at this; simp at this
+  · cases hp : c.pc with
+    | admitted =>
+      have := q (.acceptFail i) (mem_cand_client s i hi _ (by simp)) rfl
+      simp [step, hc, hp] at this
+    | unregistered =>
+      have := q (.exit i) (mem_cand_client s i hi _ (by simp)) rfl
+      simp [step, cstep, hc, hp] at this
+    | exited =>
+      have := q (.done i) (mem_cand_client s i hi _ (by simp)) rfl
+      simp [step, hc, hp] at this
+    | gone => rfl
+    | refused => rfl
+    | loopHead => rw [hp] at hm; simp [CPc.inMap] at hm
+    | haveRes r => rw [hp] at hm; simp [CPc.inMap] at hm
+    | writing v => rw [hp] at hm; simp [CPc.inMap] at hm
+    | waiting => rw [hp] at hm; simp [CPc.inMap] at hm
+    | wokenUp => rw [hp] at hm; simp [CPc.inMap] at hm
+    | leaving => rw [hp] at hm; simp [CPc.inMap] at hm
+
+/-! non-vacuity: close() with one client connected runs to completion -/
+example : ((run init [.admitC, .register 0, .readRes 0, .readLog 0 none, .closeBegin, .cancel, .closeWait,
+    .ctxDone 0, .unregister 0, .exit 0, .done 0, .closeReturn]).map (·.close)) = some .returned := by decide
+
 end D2V.Watch
